@@ -15,6 +15,7 @@ Import ListNotations.
 From TI Require Import model.RArgs proofs.RArgsBasics proofs.RArgsProofs proofs.RArgsOps
      proofs.RArgsLaws proofs.RArgsTags.
 From TI Require Import model.RArgsVal proofs.RArgsValProofs.
+From TI Require Import model.RArgsSub proofs.RArgsSubProofs.
 
 (** the invariant holds initially *)
 Theorem C16_initial_heap_wf : forall F, wf_forest F -> WF F heap0.
@@ -411,3 +412,86 @@ Theorem C16_integer_model_is_the_restriction_to_ints :
     end.
 Proof. exact int_model_embeds. Qed.
 Print Assumptions C16_integer_model_is_the_restriction_to_ints.
+
+(** * Namespace SUBCLASSES with their own constructor (model/RArgsSub.v)
+
+    A namespace subclass may define its own [__init__] (a preset without parameters, renamed
+    parameters, forced fields, ...; [ctor_of]).  "update ... return new objects that obey the
+    same rule": the copy is defined on the FIELDS of the instance and keeps its class; the
+    statements below do not mention the constructor descriptor of the class at all, so they
+    hold for every subclass. *)
+
+(** [x.update(known fields...)] on an instance of ANY class [s] of the table: a new instance
+    of the same class whose fields are those of [x] with the given ones replaced; never raises *)
+Theorem C16_subclass_update_copies_by_fields :
+  forall cl sl (h : list nobj) env x i s f kw,
+    nlookup h env x = Some (i, (s, f)) -> length f = sfields cl sl s ->
+    kw <> nil -> all_known (sfields cl sl s) kw = true ->
+    sstep_op cl sl h env (SUpdate x kw) =
+    (h ++ (s, fields_by_rule (sfields cl sl s) (fun j => nth j f VNone) kw) :: nil,
+     NOk (RObj (length h))).
+Proof. exact sub_update_by_fields. Qed.
+Print Assumptions C16_subclass_update_copies_by_fields.
+
+Theorem C16_subclass_update_raises_only_for_unknown_names :
+  forall cl sl (h : list nobj) env x i s f kw,
+    nlookup h env x = Some (i, (s, f)) -> all_known (sfields cl sl s) kw = false ->
+    sstep_op cl sl h env (SUpdate x kw) = (h, NErr NEUnknown).
+Proof. exact sub_update_unknown_rejected. Qed.
+Print Assumptions C16_subclass_update_raises_only_for_unknown_names.
+
+(** the same result whatever constructors the classes define *)
+Theorem C16_subclass_update_is_independent_of_the_constructor :
+  forall cl sl sl' (h : list nobj) env x i s f kw,
+    nlookup h env x = Some (i, (s, f)) -> base_of sl s = base_of sl' s ->
+    sstep_op cl sl h env (SUpdate x kw) = sstep_op cl sl' h env (SUpdate x kw).
+Proof. exact sub_update_ctor_irrelevant. Qed.
+Print Assumptions C16_subclass_update_is_independent_of_the_constructor.
+
+Theorem C16_subclass_render_args_update_is_namespace_update :
+  forall cl sl (h : list nobj) env x m i s f kw,
+    nlookup h env x = Some (i, (s, f)) -> base_of sl s <= m < length cl ->
+    sstep_op cl sl h env (SRaUpdate x m kw) = sstep_op cl sl h env (SUpdate x kw).
+Proof. exact sub_ra_update_is_update. Qed.
+Print Assumptions C16_subclass_render_args_update_is_namespace_update.
+
+(** [|], unary [+], [to_render_args], [convert]: the set holds the very instance *)
+Theorem C16_subclass_sets_hold_the_instance_itself :
+  forall pol cl sl (h : list nobj) env x r i s f,
+    nlookup h env x = Some (i, (s, f)) -> hold_ok (length cl) (base_of sl s) r = NOk tt ->
+    sstep_pol pol cl sl h env (SHold x r) = (h, NOk (RObj i)).
+Proof. exact sub_hold_is_identity. Qed.
+Print Assumptions C16_subclass_sets_hold_the_instance_itself.
+
+(** operation SEQUENCES (construction through the own constructors, update, RenderArgs.update,
+    the holding routes) obey the value-level rule and never alter a live instance *)
+Theorem C16_subclass_programs_obey_the_rule :
+  forall cl subs p,
+    Forall2 (nagree (fst (srun cl subs p))) (snd (srun cl subs p)) (spec_srun cl subs p).
+Proof. exact srun_refines. Qed.
+Print Assumptions C16_subclass_programs_obey_the_rule.
+
+Theorem C16_subclass_programs_never_alter_an_instance :
+  forall cl subs p q i o,
+    nth_error (fst (srun cl subs p)) i = Some o ->
+    nth_error (fst (srun cl subs (p ++ q))) i = Some o.
+Proof. exact srun_heap_monotone. Qed.
+Print Assumptions C16_subclass_programs_never_alter_an_instance.
+
+(** the excluded design [type(self)(all fields as keywords)]: raises on a preset subclass,
+    silently loses the update on a subclass that forces a field *)
+Theorem C16_update_through_the_constructor_preset_refuted :
+  exists dfl pk f kw,
+    all_known (length dfl) kw = true /\ kw <> nil /\ length f = length dfl /\
+    update_via_ctor dfl (ctor_of (DPreset pk)) f kw = NErr NEType /\
+    exists f', spec_nupdate (length dfl) f kw = NOk f'.
+Proof. exact update_via_ctor_preset_refuted. Qed.
+Print Assumptions C16_update_through_the_constructor_preset_refuted.
+
+Theorem C16_update_through_the_constructor_forced_field_refuted :
+  exists dfl pk f kw f1 f2,
+    all_known (length dfl) kw = true /\
+    update_via_ctor dfl (ctor_of (DForce pk)) f kw = NOk (Some f1) /\
+    spec_nupdate (length dfl) f kw = NOk f2 /\ f1 <> f2.
+Proof. exact update_via_ctor_force_refuted. Qed.
+Print Assumptions C16_update_through_the_constructor_forced_field_refuted.
